@@ -1,0 +1,9 @@
+//go:build verif
+
+package eval
+
+// VerifCacheOff, when true, makes every cache lookup miss and every store a no-op,
+// so one binary can run a program with memoization disabled (verification hook H1).
+var VerifCacheOff bool
+
+func verifCacheOff() bool { return VerifCacheOff }
